@@ -61,6 +61,13 @@ SOURCES = {
     'rev0': '<dtml-in seq reverse_expr="rv0"' + ATTRS + B_MIN + ELSE,
     'prev': '<dtml-in seq previous' + ATTRS + 'B' + B_MODE + '<dtml-else>E' + B_MODE + '</dtml-in>',
     'next': '<dtml-in seq next' + ATTRS + 'B' + B_MODE + '<dtml-else>E' + B_MODE + '</dtml-in>',
+    # the attribute forms whose section walks the neighbouring batch of the SAME name: still one pass, in order
+    'next_nested': ('<dtml-in seq next' + ATTRS + 'B' + B_MODE +
+                    '<dtml-in seq start=next-sequence-start-number size=sz orphan=orp>' + B_MIN + '</dtml-in>'
+                    '<dtml-else>E' + B_MODE + '</dtml-in>'),
+    'prev_nested': ('<dtml-in seq previous' + ATTRS + 'B' + B_MODE +
+                    '<dtml-in seq start=previous-sequence-start-number size=sz orphan=orp>' + B_MIN + '</dtml-in>'
+                    '<dtml-else>E' + B_MODE + '</dtml-in>'),
     'unb': '<dtml-in seq>' + B_MIN + ELSE,
     'unb_expr': '<dtml-in "seq">' + B_MIN + ELSE,
 }
@@ -330,6 +337,72 @@ def batched(ctx, env, case, sample=False):
                     'shown_window': [s, e], 'bound': bound, 'observed': log_detail(log, out)})
 
 
+# ---------------------------------------------------------------- attribute form + nested walk of the same name
+def nested(ctx, env, case):
+    tmpl, kind, n = case['tmpl'], case['kind'], case['n']
+    st, en, sz, orp, ovl = case['start'], case['end'], case['size'], case['orphan'], case['overlap']
+    if env.skip(kind):
+        return
+    eff = eff_size(st, en, sz)
+    eff_inner = sz if sz >= 1 else 7
+    ms, me, only_end = c11.model(INF if n is None else n, st, en, sz, orp)
+    budget = (me + eff + eff_inner * 2 + orp * 2 + 64) if n is None else 3 * n + 64
+    log = PullLog(n, budget)
+    out, exc = render(env, case, log)
+    npull = len(log.pulls)
+    desc = (tmpl, kind, n, st, en, sz, orp, ovl)
+    key = case_key(case)
+    ctx.table('kind/template', '%s/%s' % (kind, tmpl))
+    ctx.count('nested:renders')
+    if log.over or isinstance(exc, PullBudgetExceeded):
+        ctx.case(desc, True)
+        env.nonterminating = True
+        ctx.violation('pull budget %d exhausted by an attribute-form render whose section walks the neighbouring '
+                      'batch of the same name' % budget, case, key='budget_' + key, detail=log_detail(log, out))
+        return
+    if exc is not None:
+        ctx.case(desc, True)
+        ctx.violation('attribute-form render with a nested walk raised %s: %s' % (type(exc).__name__, str(exc)[:160]),
+                      case, key='raise_' + key, detail=log_detail(log, out))
+        return
+    problems = []
+    if log.pulls != list(range(npull)):
+        problems.append('pull log is not 0,1,2,...: %r' % (log.pulls[:16],))
+    if n == 0:
+        ctx.case(desc, False)
+        if npull:
+            problems.append('%d elements pulled from an empty source' % npull)
+        if problems:
+            ctx.violation('; '.join(problems), case, key='empty_' + key, detail=log_detail(log, out))
+        return
+    try:
+        head, rest = out[:out.index('}') + 1], out[out.index('}') + 1:]
+        f = head[2:-1].split('|')
+        s_, e_ = int(f[0]) + 1, int(f[1]) + 1
+        nums, items = parse_records(rest) if rest else ([], [])
+    except (ValueError, IndexError) as err:
+        ctx.case(desc, True)
+        ctx.violation('nested output not parseable: %s: %r' % (err, out[:80]), case, key='parse_' + key,
+                      detail=log_detail(log, out))
+        return
+    bound = e_ + eff + orp
+    if nums:
+        ctx.count('nested:inner walk rendered')
+        if items != nums:
+            problems.append('inner walk shows elements %r at positions %r' % (items[:8], nums[:8]))
+        bound = max(bound, nums[-1] + eff_inner + orp)
+    deciding = n is None or n > bound
+    ctx.case(desc, deciding)
+    ctx.count('nested:bound evaluations')
+    if deciding:
+        ctx.count('nested:deciding (source longer than the bound)')
+    if npull > bound:
+        problems.insert(0, 'pulled %d elements; outer window %d..%d, inner walk %s: bound %d'
+                        % (npull, s_, e_, ('%d..%d' % (nums[0], nums[-1])) if nums else 'none', bound))
+    if problems:
+        ctx.violation('; '.join(problems[:3]), case, key='nested_' + key, detail=log_detail(log, out))
+
+
 # ---------------------------------------------------------------- one unbatched render
 def unbatched(ctx, env, case, sample=False):
     kind, n = case['kind'], case['n']
@@ -416,6 +489,9 @@ def run(ctx, spec):
             batched(ctx, env, mk('prev', KINDS[(j // 8) % len(KINDS)], n, st, en, sz, orp, ovl))
         elif j % 8 == 5:
             batched(ctx, env, mk('next', KINDS[(j // 8) % len(KINDS)], n, st, en, sz, orp, ovl))
+        elif j % 8 == 3 and ovl <= min(eff_size(st, en, sz), 1):
+            nested(ctx, env, mk(('next_nested', 'prev_nested')[(j // 8) % 2], KINDS[(j // 16) % len(KINDS)],
+                                n, st, en, sz, orp, ovl))
         elif j % 32 == 7 and (st > 0 or en > 0 or sz > 0):
             case = mk('literal', KINDS[(j // 32) % len(KINDS)], n, st, en, sz, orp, ovl)
             case['src'] = c11.literal_source(st if st > 0 else None, en if en > 0 else None,
@@ -469,7 +545,8 @@ def finish(agg):
         inc.append('no unbounded source was rendered')
     for k in ('bound:evaluations', 'bound:deciding (source longer than the bound)',
               'bound:reached exactly', 'unbatched:evaluations', 'monitor:opt calls attributed',
-              'monitor:exhaustion signals', 'monitor:iter() calls'):
+              'monitor:exhaustion signals', 'monitor:iter() calls', 'nested:inner walk rendered',
+              'nested:deciding (source longer than the bound)'):
         if not c.get(k):
             inc.append('deciding monitor never evaluated: ' + k)
     for r in ('reach:SequenceFromIter.__getitem__', 'reach:sequence_ensure_subscription',
@@ -503,5 +580,7 @@ def replay(ctx, rep):
     case = rep['case']
     if case['tmpl'] in ('unb', 'unb_expr'):
         unbatched(ctx, env, case, sample=True)
+    elif case['tmpl'] in ('next_nested', 'prev_nested'):
+        nested(ctx, env, case)
     else:
         batched(ctx, env, case, sample=True)
